@@ -152,7 +152,24 @@ def _discharge(ex, rep, name, goal, on_sat=None, timeout_ms=None, **kw):
     v = ex.prove(goal, timeout_ms=timeout_ms, **kw)
     rep.record(name, v.status, v.seconds)
     if v.status == "sat":
-        env = DefaultEnv(model_env(v.model))
+        # the sliced model only covers the goal's cone of influence: complete it with a model of the whole path
+        # (variables outside the cone are independent of it, so any model of the rest combines with the sliced one)
+        env_d = {}
+        try:
+            full = ex.full_model([])
+            env_d.update(model_env(full))
+        except Exception:  # noqa
+            pass
+        env_d.update(model_env(v.model))
+        try:
+            import z3 as _z3
+            from .xf import zb as _zb
+            both = ex.full_model([_z3.Not(_zb(goal))]) if goal is not True and goal is not False else None
+            if both is not None:
+                env_d = model_env(both)
+        except Exception:  # noqa
+            pass
+        env = DefaultEnv(env_d)
         if on_sat is not None:
             try:
                 sig, desc, inputs = on_sat(v.model, env)
